@@ -8,7 +8,10 @@ over the two halves of a `SyncStream`) and compat/waker_array.rs.
    write half: `poll_write`, `poll_flush`, `poll_close`).
 * The in-flight future is polled with a `WakerArrayRef` over the three slots; an inner stream
   that returns Pending clones that waker, i.e. takes a *snapshot* of the tasks in the slots
-  (`WakerArrayRef::clone` → `to_owned`). Waking the snapshot wakes every task in it, in slot order.
+  (`WakerArrayRef::clone` → `to_owned`). Waking the snapshot — by reference or by value, through
+  whichever clone of the aggregate waker and however many other clones are alive — wakes every
+  task in it, in slot order (the harness' inner stream exercises the waking styles take / by-ref /
+  clone-while-registered / clone-with-registration-kept).
 * Tasks are natural numbers. `owed` is ghost: per entry point the task whose latest call of that
   entry point returned Pending and which has not been woken since.
 Core Lean only.
